@@ -247,7 +247,7 @@ def run_nonmarkov(spec, props=("C11",)):
                 A.add(V("C04", fn, cls, s, m, pre))
         if "C05" in props:
             if not full:
-                for s, m in mon.c05_arrays(arrs, n, tmin, I0, R0, True):
+                for s, m in mon.c05_arrays(arrs, n, tmin, I0, R0, True, G=G):
                     A.add(V("C05", fn, cls, s, m, pre))
             else:
                 busy = {v for v in I0 if duration.get(v) == 0}
@@ -468,7 +468,7 @@ def run_fast_sir(spec, props=("C01",)):
                 A.add(V("C04", fn, cls, s, m, pre))
         if "C05" in props:
             if not full:
-                for s, m in mon.c05_arrays(arrs, n, tmin, I0, R0, True):
+                for s, m in mon.c05_arrays(arrs, n, tmin, I0, R0, True, G=G):
                     A.add(V("C05", fn, cls, s, m, pre))
             else:
                 for s, m in mon.c05_full(out, nodes, tmin, I0, R0, True):
